@@ -250,11 +250,31 @@ def run(tier, rng, C):
             fails.append({'key': 'render-depends-on-earlier-calls', 'severity': 'fail', 'show': c['show'] + ' calls: ' + ' '.join(order),
                           'lines': [fseq_lines[list(fseq_want).index(cid)]], 'reason': bad, 'impl': C.describe(o)[:300],
                           'size': len(c['line'])})
+    # concurrent use of ONE instance: a thread keeps rendering the whole inventory while the nodes that render are
+    # rendered again and again on the same instance -- every render equals the node's first one (inventories with
+    # failing nodes included: what another thread's failing render does must not show in this thread's nodes)
+    conc_lines, conc_cases = [], {}
+    for c in base_cases:
+        names = sorted(('.'.join(p)[:-4] if c['inv'].compose else p[-1][:-4]) for p in c['inv'].nodes)
+        good = [nm for nm in names if nm not in c['failing']]
+        if len(c['inv'].nodes) > 12 or not good or not (c['failing'] or len(conc_lines) % 3 == 0):
+            continue
+        cid = '%s_c' % c['id']
+        conc_lines.append(G.inv_line(cid, c['inv'], 'conc ' + G.strs(good[:4])))
+        conc_cases[cid] = c
+    out = C.run_sharded(C.HARNESS, conc_lines, shards=2)
+    evals += len(conc_lines)
+    for j, (cid, c) in enumerate(conc_cases.items()):
+        o = out.get(cid, '')
+        if o != 'conc same':
+            fails.append({'key': 'render-depends-on-concurrent-calls', 'severity': 'fail', 'show': c['show'] + ' (rendered while another thread renders the inventory)',
+                          'lines': [conc_lines[j]], 'reason': 'a node rendered while another thread renders the whole inventory on the same instance differs from its first render',
+                          'impl': C.describe(o)[:300], 'size': len(c['line'])})
     res['failures'] = fails
     res['evaluations'] = evals
     res['rule'] = ('%d multi-node inventories: whole-inventory render in fresh processes with RAYON_NUM_THREADS in %s, %d times each, '
                    'compared with each other and with the model\'s single render; every node rendered alone twice in shuffled order '
-                   'and compared with its inventory entry; two shuffled sequences of render calls (with a whole-inventory render in between) on one instance compared call by call with fresh-instance renders (on inventories with failing nodes: failing nodes keep failing, results repeat); one inventory in five has a class file and a class directory reachable under two names through symlinks, with relative includes; one in five has nodes for which the same reference-bearing include entry resolves to an existing class or to a missing, ignored one; non-trivial = >= 2 nodes and >= 2 pool sizes (all)'
+                   'and compared with its inventory entry; two shuffled sequences of render calls (with a whole-inventory render in between) on one instance compared call by call with fresh-instance renders (on inventories with failing nodes: failing nodes keep failing, results repeat); nodes rendered repeatedly while another thread renders the whole inventory on the same instance; one inventory in five has a class file and a class directory reachable under two names through symlinks, with relative includes; one in five has nodes for which the same reference-bearing include entry resolves to an existing class or to a missing, ignored one; non-trivial = >= 2 nodes and >= 2 pool sizes (all)'
                    % (n, threads, 2 if tier == 'quick' else 4))
     res['extra']['static_audit'] = static_audit()
     return res
